@@ -6,9 +6,14 @@
   oracle parameter of the model; the choice among them, the shape of EOM pulses and idle
   periods, and the buffers are modelled and proved.  The emulator clause (drift correction
   ≡ zero off-detuning) is validated numerically by the harness only.
+
+  `eom_pulses_square` / `eom_blocks_wellformed` are the statements over every reachable state
+  (invariant `EIc`, Proofs/EomInv.lean + Proofs/EomSeq.lean: third pass over `stepRaw`).
 -/
 import Proofs.SeqInv
 import Proofs.Eom
+import Proofs.EomSeq
+import Properties.C02
 namespace Pulser
 namespace C15
 
@@ -131,6 +136,40 @@ theorem closeLastBlock_spec (l : List EomBlock) (b : EomBlock) (tf : Int) (h : l
       have := congrArg List.length hr; simpa using this
     simp [hl]
 
+/-- **While a channel is in EOM mode every pulse on it is square with exactly the block's
+setpoint, and the idle pulses sit at the block's off-detuning — in every reachable state.**
+For every EOM block `b` of every channel (open or closed, the latest setpoint or an earlier
+one) and every pulse `p` that starts inside `[b.ti, b.tf)`: both waveforms are constant and
+`(amp, det)` is `(b.amp, b.detOn)` or `(0, b.detOff)`.  Whatever the history: failing calls,
+oracle answers, setpoint modifications, buffers and retargets included. -/
+theorem eom_pulses_square (dev : Device) (nQ : Nat) (hd : DevOk dev) (hde : DevOkE dev)
+    (s : SeqState) (hr : C02.Reach dev nQ s) :
+    ∀ c ∈ s.chans, ∀ b ∈ c.eom, ∀ sl ∈ c.slots, ∀ p, sl.kind = .pulse p →
+      b.ti ≤ sl.ti → (∀ t, b.tf = some t → sl.ti < t) →
+      p.const = true ∧ ((p.amp = b.amp ∧ p.det = b.detOn) ∨ (p.amp = 0 ∧ p.det = b.detOff)) := by
+  obtain ⟨evs, rfl⟩ := hr
+  have h0 : SeqInv (SeqState.init dev nQ) := by intro c hc; simp [SeqState.init] at hc
+  have he0 : ∀ c ∈ (SeqState.init dev nQ).chans, EIc c := by intro c hc; simp [SeqState.init] at hc
+  intro c hc b hb sl hsl p hp h1 h2
+  exact (runEv_EI (s := SeqState.init dev nQ) hd hde h0 he0 evs c hc).sq sl hsl p hp b hb ⟨h1, h2⟩
+
+/-- **EOM blocks are well formed in every reachable state**: a closed block ended at or before
+the channel's current end, only the latest block can be open (so "in EOM mode" means exactly
+"the latest block is open"), and a channel without an EOM — a DMM in particular — never has
+a block. -/
+theorem eom_blocks_wellformed (dev : Device) (nQ : Nat) (hd : DevOk dev) (hde : DevOkE dev)
+    (s : SeqState) (hr : C02.Reach dev nQ s) :
+    ∀ c ∈ s.chans,
+      (∀ b ∈ c.eom, ∀ t, b.tf = some t → t ≤ c.getDuration false) ∧
+      (∀ b ∈ c.eom.dropLast, b.tf ≠ none) ∧
+      (c.cfg.eom = none → c.eom = []) ∧ (c.cfg.isDmm = true → c.eom = []) := by
+  obtain ⟨evs, rfl⟩ := hr
+  have h0 : SeqInv (SeqState.init dev nQ) := by intro c hc; simp [SeqState.init] at hc
+  have he0 : ∀ c ∈ (SeqState.init dev nQ).chans, EIc c := by intro c hc; simp [SeqState.init] at hc
+  intro c hc
+  have h := runEv_EI (s := SeqState.init dev nQ) hd hde h0 he0 evs c hc
+  exact ⟨h.closed, h.onlyLast, h.noCfg, fun hd => h.noCfg (h.dmm hd)⟩
+
 /-! ### Non-vacuity -/
 
 example : closestIdx [3, -1, 5/2, 1] 2 = some 2 := by decide +kernel
@@ -154,6 +193,28 @@ def exS : SeqState :=
 example : (exS.chans.map fun c => (c.slots.map fun s => (s.ti, s.tf, s.isPulse), c.eom.map (·.detOff))) =
     [([(-1, 0, false), (0, 100, true), (100, 160, false), (160, 240, true), (240, 340, true),
        (340, 392, true)], [-5/2])] := by decide +kernel
+
+def exEvs : List Ev :=
+  [.call (.declare (.user 0) 0 none),
+   .call (.add { dur := 100, fallStd := 60, ref := 1 } (.user 0) (some .minDelay)),
+   .oracle (.user 0) (-5/2) 80 0 30, .oracle (.user 0) (-5/2) 52 0 30,
+   .call (.enableEom (.user 0) eIn),
+   .call (.addEom (.user 0) 100 0 0 (some .minDelay) false 0 30 2),
+   .call (.delay 52 (.user 0) false)]
+
+/-- The hypotheses of `eom_pulses_square` are met: the device satisfies `DevOk` and `DevOkE`, the
+state is reachable (with two oracle answers arriving as events), it has an open block starting
+at 240, and the pulses at 240 (EOM pulse) and 340 (idle pulse at the off-detuning) start inside it. -/
+example : DevOk exDev ∧ DevOkE exDev ∧
+    C02.Reach exDev 1 (runEv (SeqState.init exDev 1) exEvs) ∧
+    ((runEv (SeqState.init exDev 1) exEvs).chans.map fun c =>
+        c.eom.map fun b => (b.ti, b.tf, b.amp, b.detOn, b.detOff)) =
+      ([[(240, none, 2, 1, -5/2)]] : List (List (Int × Option Int × Rat × Rat × Rat))) ∧
+    ((runEv (SeqState.init exDev 1) exEvs).chans.map fun c =>
+        (c.slots.filterMap fun sl => sl.pulse?.map fun p => (sl.ti, p.const, p.amp, p.det))) =
+      ([[(0, false, 0, 0), (160, true, 0, -5/2), (240, true, 2, 1), (340, true, 0, -5/2)]] :
+        List (List (Int × Bool × Rat × Rat))) :=
+  ⟨by unfold DevOk; decide, by unfold DevOkE; decide, ⟨exEvs, rfl⟩, by decide +kernel, by decide +kernel⟩
 
 end C15
 end Pulser
